@@ -603,6 +603,16 @@ func histCampaign(prop, tier string, seed uint64, scratch string) *Result {
 			}
 		})
 	}
+	if prop == "C01" {
+		// two independent images written at the same time (forced interleaving, deterministic)
+		for _, v := range twoImagesOracle(scratch, seed, res.Stats) {
+			f := &Finding{V: *v, Seed: seed}
+			if _, ok := known[v.Key]; ok {
+				f.Known = true
+			}
+			res.Findings = append(res.Findings, f)
+		}
+	}
 	sort.Slice(res.Breaks, func(a, b int) bool { return len(res.Breaks[a].Ops) < len(res.Breaks[b].Ops) })
 	sort.Slice(res.Findings, func(a, b int) bool { return len(res.Findings[a].Ops) < len(res.Findings[b].Ops) })
 	res.WallS = time.Since(t0).Seconds()
